@@ -105,7 +105,7 @@ row(LOG, "diverge", "assert!#is_zero", "documented precondition self != 0; expor
     pred={"name": "nonzero", "param": 1})
 row(LOG, "diverge", "assert!#partial_cmp", "documented precondition base >= 2; accepted only where the caller's "
     "call is dominated by the false edge of a `base < 2` test",
-    pred={"name": "test", "test": "core::cmp::PartialOrd::lt", "truth": False})
+    pred={"name": "test", "test": "core::cmp::PartialOrd::lt", "truth": False, "param": 2})
 row(LOG, "diverge", "assert!#is_normal", "float estimate of log is finite for non-zero self and base >= 2 (arithmetic, "
     "C13 values not decided)")
 row(LOG, "foreign", RUNWRAP, "estimate.try_into::<Uint>() of a finite non-negative float <= BITS (arithmetic)")
